@@ -57,7 +57,28 @@ Theorem C03_model_justified :
                         ~ MdlSpec p (inputs_after (firstn (S i) ops)) d v.
 Proof. exact MdlJust.model_justified_g. Qed.
 
+(** ... for every order of the parallel tasks of a request ([run_history_o], see Properties/C01.v);
+    "at most once" needs no hypothesis on the order at all *)
+Theorem C03_model_once_any_task_order :
+  forall (tord bord : oracle) p ops i j m r, wf_model_g p -> Forall op_in_scope ops ->
+    let rs := run_history_o tord bord p init_state ops in
+    (nth_error rs i = Some r -> NoDup (r_execs r)) /\
+    ((j < i)%nat -> executed_at rs i m -> executed_at rs j m -> ~ no_session_between ops j i).
+Proof. exact MdlOnce.model_once_g_o. Qed.
+Theorem C03_model_justified_any_task_order :
+  forall tord bord p ops i j m, order_ok tord -> order_ok bord ->
+    wf_model_g p -> Forall op_in_scope ops -> model_sessions_fuelled_o tord bord p ops i ->
+    let rs := run_history_o tord bord p init_state ops in
+    executed_at rs i m -> (j < i)%nat -> executed_at rs j m ->
+    (forall k, (j < k < i)%nat -> ~ executed_at rs k m) ->
+    exists d, MReads p (inputs_after (firstn (S j) ops)) m d /\
+              forall v, MdlSpec p (inputs_after (firstn (S j) ops)) d v ->
+                        ~ MdlSpec p (inputs_after (firstn (S i) ops)) d v.
+Proof. exact MdlJust.model_justified_g_o. Qed.
+
 Print Assumptions C03_core_once.
+Print Assumptions C03_model_once_any_task_order.
+Print Assumptions C03_model_justified_any_task_order.
 Print Assumptions C03_model_once.
 Print Assumptions C03_model_justified.
 Print Assumptions C03_fw_once.
